@@ -1156,7 +1156,7 @@ func (p *printer) listForPhrase(list []*ast.ForPhrase) {
 		if i > 0 {
 			p.print(blank)
 		}
-		p.print(token.FOR, blank)
+		p.print(x.For, token.FOR, blank)
 		if x.Key != nil {
 			p.expr(x.Key)
 			p.print(token.COMMA, blank)
